@@ -121,6 +121,20 @@ def compile_props(pid):
     return rc == 0, theorems, res, out
 
 
+def run_coqchk(pid):
+    """thorough tier: re-check props/<pid>.vo and everything it depends on with the independent
+    checker; returns (ok, summary dict, text)"""
+    rc, out = sh(["coqchk", "-silent", "-o", "-Q", "theories", "Scale", "Scale.props." + pid], timeout=3000, cwd=COQ)
+    summ = {}
+    for key, label in (("axioms", "Axioms"), ("type_in_type", "Constants/Inductives relying on type-in-type"),
+                       ("unsafe_fixpoints", "Constants/Inductives relying on unsafe (co)fixpoints"),
+                       ("assumed_positivity", "Inductives whose positivity is assumed")):
+        m = re.search(r"\* " + re.escape(label) + r":\s*(.*?)(?=\n\s*\n|\Z)", out, re.S)
+        summ[key] = m.group(1).strip() if m else "?"
+    ok = rc == 0 and all(v == "<none>" for v in summ.values())
+    return ok, summ, out[-1500:]
+
+
 # ---------------------------------------------------------------- implementation side
 def build_harness(features=None, profile_dir="release"):
     with Lock("cargo"):
@@ -231,6 +245,7 @@ def check(pid, tier, seed, only=None):
     if bad:
         problems.append(("audit", "forbidden construct in the development: " + "; ".join(bad[:10])))
     theorems, discharged, assumptions = [], 0, {}
+    chk_future, coqchk = None, None
     if ok:
         ok2, theorems, assumptions, out = compile_props(pid)
         log.append(("props", out[-3000:]))
@@ -245,6 +260,9 @@ def check(pid, tier, seed, only=None):
                 problems.append(("proof", "theorem %s depends on axioms %s" % (th, ax)))
             else:
                 discharged += 1
+        if ok2 and tier == "thorough":
+            # overlaps with the harness build and run below; joined before the verdict
+            chk_future = ThreadPoolExecutor(max_workers=1).submit(run_coqchk, pid)
     else:
         src = strip_comments(open(os.path.join(COQ, "theories", "props", pid + ".v")).read())
         theorems = re.findall(r"^\s*Theorem\s+(\w+)", src, re.M)
@@ -302,6 +320,15 @@ def check(pid, tier, seed, only=None):
             import traceback
             problems.append(("tool", "property-specific step crashed: " + traceback.format_exc()[-1500:]))
 
+    if chk_future is not None:
+        try:
+            okc, summ, outc = chk_future.result()
+            coqchk = summ
+            if not okc:
+                problems.append(("proof", "coqchk does not accept props/%s.vo and its dependencies with an empty context: %s\n%s" % (pid, summ, outc)))
+        except Exception as e:
+            problems.append(("tool", "coqchk could not be run: %r" % (e,)))
+
     # 3. verdict
     known = load_known(pid)
     known_hits, new_oracle = [], []
@@ -348,7 +375,9 @@ def check(pid, tier, seed, only=None):
         property_id=pid, tier=tier, seed=seed, level="proof",
         coverage=dict(
             obligations=len(theorems), discharged=discharged,
-            checker_cmd="coqc -Q theories Scale theories/props/%s.v (after make -j16 of coq/_CoqProject); Print Assumptions per theorem; audit grep for Admitted/admit/Axiom/Parameter/..." % pid,
+            checker_cmd="coqc -Q theories Scale theories/props/%s.v (after make -j16 of coq/_CoqProject); Print Assumptions per theorem; audit grep for Admitted/admit/Axiom/Parameter/..." % pid
+                        + ("; coqchk -silent -o -Q theories Scale Scale.props.%s (independent re-check of the compiled files: axioms / type-in-type / unsafe fixpoints / assumed positivity must all be <none>)" % pid if coqchk is not None else ""),
+            coqchk=coqchk if coqchk is not None else "not run in the quick tier",
             trusted_base=cfg.get("trusted_base", []) + P.COMMON_TRUSTED,
             theorems=theorems, assumptions={k: v for k, v in assumptions.items()},
             evaluations=n_eval, distinct_nontrivial=int(stats.get("distinct_nontrivial", 0)) + int(extra.get("distinct_nontrivial", 0)),
